@@ -589,7 +589,16 @@ func (e *Env) upstreamRule(rule string) {
 		badGuard := ""
 		for _, gd := range strings.Split(gs, " && ") {
 			gd = strings.TrimSpace(gd)
-			if gd == "" || strings.HasPrefix(strings.TrimPrefix(gd, "!"), "more∈") || strings.HasPrefix(gd, "op<") || strings.Contains(gd, "."+e.joinFlagName()) {
+			if gd == "" || strings.HasPrefix(strings.TrimPrefix(gd, "!"), "more∈") || strings.HasPrefix(gd, "op<") {
+				continue
+			}
+			if strings.Contains(gd, "."+e.joinFlagName()) {
+				// the join flag decides which of the two ways applies - with the right polarity: members when it is
+				// set, the in-IP itself when it is not
+				neg := strings.HasPrefix(gd, "!")
+				if (isJoin && neg) || (!isJoin && !neg) {
+					badGuard = gd + " (polarity: the members of a sub-stream are linked for joined ports, the in-IP itself for all others)"
+				}
 				continue
 			}
 			badGuard = gd
